@@ -6,18 +6,27 @@ Open Scope Z_scope.
 Definition active (g : gstate) : nat := match g with GActive _ _ => 1 | _ => 0 end.
 Fixpoint count_active (l : list gstate) : nat :=
   match l with [] => 0 | g :: t => active g + count_active t end.
-Definition holds (m : nat) (g : gstate) : Prop := match g with GActive m' _ => m' = m | _ => True end.
+(* the map a generator reads from is open *)
+Definition gmap_open (open : list nat) (g : gstate) : Prop :=
+  match g with GActive m _ => In m open | _ => True end.
 
-(* the protocol invariant: the cached map exists exactly while somebody uses it, it is
-   the only open one, and every user holds that very map *)
-Definition SInv (s : sched) : Prop :=
-  sc_users s = (count_active (sc_gens s) + length (sc_ctx s))%nat /\
+(* The protocol invariant, with `k` users that are in the middle of an access and one map `ex`
+   whose last holder may just have finished:
+   - the user count is exact;
+   - every active generator's map is open (memory safety);
+   - the cached map exists only while it has users, and is open;
+   - every open map is the cached one or is still held by a generator (no leak). *)
+Definition SInvX (k : nat) (ex : option nat) (s : sched) : Prop :=
+  sc_users s = (k + count_active (sc_gens s) + length (sc_ctx s))%nat /\
+  Forall (gmap_open (sc_open s)) (sc_gens s) /\
   match sc_cache s with
-  | Some m => (0 < sc_users s)%nat /\ sc_open s = [m] /\ Forall (holds m) (sc_gens s) /\
-              Forall (fun x => x = m) (sc_ctx s)
-  | None => sc_users s = 0%nat /\ sc_open s = []
-  end.
+  | Some m => (0 < sc_users s)%nat /\ In m (sc_open s)
+  | None => sc_users s = 0%nat
+  end /\
+  (forall m, In m (sc_open s) -> ex = Some m \/ sc_cache s = Some m \/ held m (sc_gens s) = true).
+Definition SInv (s : sched) : Prop := SInvX 0 None s.
 
+(* ---------- list facts ---------- *)
 Lemma count_replace : forall l g x old, nth_error l g = Some old ->
   (count_active (replace_nth g x l) + active old = count_active l + active x)%nat.
 Proof.
@@ -35,168 +44,294 @@ Qed.
 Lemma count_app : forall a b, count_active (a ++ b) = (count_active a + count_active b)%nat.
 Proof. induction a as [|x a IH]; intros b; cbn; [reflexivity|]. rewrite IH. lia. Qed.
 
-Lemma mem_nat_refl : forall m l, mem_nat m (m :: l) = true.
-Proof. intros. cbn. rewrite Nat.eqb_refl. reflexivity. Qed.
+Lemma mem_in : forall m l, In m l -> mem_nat m l = true.
+Proof.
+  induction l as [|y l IH]; intros H; [destruct H|]. cbn. destruct H as [->|H].
+  - rewrite Nat.eqb_refl. reflexivity.
+  - rewrite (IH H). apply orb_true_r.
+Qed.
 
-Lemma remove_self : forall m, remove_nat m [m] = [].
-Proof. intros. cbn. rewrite Nat.eqb_refl. reflexivity. Qed.
+Lemma in_remove : forall x m l, In x (remove_nat m l) <-> In x l /\ x <> m.
+Proof.
+  induction l as [|y l IH]; cbn; [tauto|]. destruct (Nat.eqb m y) eqn:E.
+  - apply Nat.eqb_eq in E. subst y. rewrite IH. split; [tauto|]. intros [[->|H] Hn]; [contradiction|tauto].
+  - apply Nat.eqb_neq in E. cbn. rewrite IH. split; [intros [->|[H Hn]]; [split; [tauto|congruence]|tauto]|tauto].
+Qed.
 
-Lemma active_none : forall l, count_active l = 0%nat -> Forall (fun g => forall m r, g <> GActive m r) l.
+Lemma held_count : forall m l, held m l = true -> (0 < count_active l)%nat.
+Proof.
+  unfold held. induction l as [|g l IH]; cbn; [discriminate|]. intros H. apply orb_true_iff in H. destruct H as [H|H].
+  - destruct g; cbn in *; try discriminate. lia.
+  - specialize (IH H). lia.
+Qed.
+
+Lemma held_app : forall m a b, held m (a ++ b) = held m a || held m b.
+Proof. intros. unfold held. apply existsb_app. Qed.
+
+(* replacing a generator state: who holds what *)
+Lemma held_replace : forall m l g x old, nth_error l g = Some old ->
+  held m (replace_nth g x l) = true -> holds_b m x = true \/ held m l = true.
+Proof.
+  unfold held. induction l as [|y l IH]; intros g x old H Hh; destruct g; cbn in *; try discriminate.
+  - apply orb_true_iff in Hh. destruct Hh as [Hh|Hh]; [left; exact Hh|right]. rewrite Hh. apply orb_true_r.
+  - apply orb_true_iff in Hh. destruct Hh as [Hh|Hh]; [right; rewrite Hh; reflexivity|].
+    destruct (IH _ _ _ H Hh) as [A|A]; [left; exact A|right; rewrite A; apply orb_true_r].
+Qed.
+Lemma held_replace_keep : forall m l g x old, nth_error l g = Some old ->
+  held m l = true -> holds_b m old = false \/ holds_b m x = true -> held m (replace_nth g x l) = true.
+Proof.
+  unfold held. induction l as [|y l IH]; intros g x old H Hh Hk; destruct g; cbn in *; try discriminate.
+  - inversion H; subst y. apply orb_true_iff in Hh. destruct Hk as [Hk|Hk].
+    + rewrite Hk in Hh. destruct Hh as [Hh|Hh]; [discriminate|]. rewrite Hh. apply orb_true_r.
+    + rewrite Hk. reflexivity.
+  - apply orb_true_iff in Hh. destruct Hh as [Hh|Hh]; [rewrite Hh; reflexivity|].
+    rewrite (IH _ _ _ H Hh Hk). apply orb_true_r.
+Qed.
+Lemma held_replace_self : forall m l g old r, nth_error l g = Some old -> held m (replace_nth g (GActive m r) l) = true.
+Proof.
+  unfold held. induction l as [|y l IH]; intros g old r H; destruct g; cbn in *; try discriminate.
+  - rewrite Nat.eqb_refl. reflexivity.
+  - rewrite (IH _ _ r H). apply orb_true_r.
+Qed.
+
+Lemma nth_active_pos : forall l g m r, nth_error l g = Some (GActive m r) -> (0 < count_active l)%nat.
+Proof.
+  induction l as [|y l IH]; intros g m r H; destruct g; cbn in *; try discriminate.
+  - inversion H; subst. cbn. lia.
+  - specialize (IH _ _ _ H). lia.
+Qed.
+
+Lemma gmap_open_mono : forall o1 o2 l, (forall m, In m o1 -> In m o2) ->
+  Forall (gmap_open o1) l -> Forall (gmap_open o2) l.
+Proof.
+  intros o1 o2 l Hs H. eapply Forall_impl; [|exact H]. intros g Hg. destruct g; cbn in *; auto.
+Qed.
+
+Lemma inactive_gmap : forall o l, count_active l = 0%nat -> Forall (gmap_open o) l.
 Proof.
   induction l as [|g l IH]; intros H; constructor.
-  - destruct g; cbn in H; try discriminate; intros; discriminate.
+  - destruct g; cbn in *; try exact I. lia.
   - apply IH. destruct g; cbn in H; lia.
 Qed.
 
-(* acquire / release preserve the shape that the invariant needs *)
-Lemma acquire_spec : forall s, SInv s ->
-  let '(m, s1) := acquire s in
-  sc_cache s1 = Some m /\ sc_open s1 = [m] /\ sc_users s1 = S (sc_users s) /\
-  sc_gens s1 = sc_gens s /\ sc_ctx s1 = sc_ctx s /\ sc_data s1 = sc_data s /\ sc_len s1 = sc_len s /\
-  Forall (holds m) (sc_gens s) /\ Forall (fun x => x = m) (sc_ctx s) /\ mem_nat m (sc_open s1) = true.
+(* ---------- acquire / release / finishing ---------- *)
+Lemma acquire_inv : forall s k ex, SInvX k ex s ->
+  SInvX (S k) ex (snd (acquire s)) /\
+  sc_cache (snd (acquire s)) = Some (fst (acquire s)) /\ In (fst (acquire s)) (sc_open (snd (acquire s))) /\
+  sc_gens (snd (acquire s)) = sc_gens s /\ sc_ctx (snd (acquire s)) = sc_ctx s /\
+  sc_data (snd (acquire s)) = sc_data s /\ sc_len (snd (acquire s)) = sc_len s.
 Proof.
-  intros s [Hu Hc]. unfold acquire. destruct (sc_cache s) as [m|] eqn:E.
-  - destruct Hc as (Hpos & Hop & Hg & Hx). cbn. rewrite Hop. repeat split; try assumption; try reflexivity.
-    cbn. rewrite Nat.eqb_refl. reflexivity.
-  - destruct Hc as (H0 & Hop). cbn. rewrite Hop. repeat split; try reflexivity.
-    + assert (count_active (sc_gens s) = 0%nat) by lia.
-      pose proof (active_none _ H) as Hn. eapply Forall_impl; [|exact Hn]. cbn. intros g Hg.
-      destruct g; cbn; try exact I. exfalso. eapply Hg. reflexivity.
-    + assert (length (sc_ctx s) = 0%nat) by lia. destruct (sc_ctx s); [constructor|discriminate].
-    + cbn. rewrite Nat.eqb_refl. reflexivity.
+  intros s k ex (Hu & Hg & Hc & Hl). unfold acquire. destruct (sc_cache s) as [m|] eqn:E; cbn [fst snd].
+  - destruct Hc as [Hp Hin]. unfold SInvX. cbn [sc_users sc_gens sc_ctx sc_open sc_cache sc_data sc_len].
+    repeat split; try assumption; try reflexivity; try lia.
+  - unfold SInvX. cbn [sc_users sc_gens sc_ctx sc_open sc_cache sc_data sc_len].
+    repeat split; try reflexivity; try lia; try (left; reflexivity).
+    + eapply gmap_open_mono; [|exact Hg]. intros x Hx. right. exact Hx.
+    + intros x [<-|Hx]; [right; left; reflexivity|].
+      destruct (Hl x Hx) as [A|[A|A]]; [left; exact A|discriminate|right; right; exact A].
 Qed.
 
-(* a state with one user too many (someone just finished) becomes invariant again by release *)
-Lemma release_inv : forall s m,
-  sc_cache s = Some m -> sc_open s = [m] ->
-  sc_users s = S (count_active (sc_gens s) + length (sc_ctx s)) ->
-  Forall (holds m) (sc_gens s) -> Forall (fun x => x = m) (sc_ctx s) ->
-  SInv (release s).
+Lemma release_inv : forall s k ex, SInvX (S k) ex s -> SInvX k ex (release s).
 Proof.
-  intros s m Hc Hop Hu Hg Hx. unfold release. rewrite Hu.
-  destruct (count_active (sc_gens s) + length (sc_ctx s))%nat eqn:E.
-  - rewrite Hc. unfold SInv. cbn. rewrite Hop, remove_self. split; [lia|]. split; reflexivity.
-  - unfold SInv. cbn. rewrite Hc. split; [lia|]. repeat split; try assumption. lia.
+  intros s k ex (Hu & Hg & Hc & Hl). unfold release. destruct (sc_users s) as [|[|u]] eqn:Eu; [lia| |].
+  - (* the last user: close *)
+    assert (k = 0%nat /\ count_active (sc_gens s) = 0%nat /\ length (sc_ctx s) = 0%nat) as (-> & Hcnt & Hlen) by lia.
+    destruct (sc_cache s) as [m|] eqn:E; [|lia].
+    unfold SInvX. cbn [sc_users sc_gens sc_ctx sc_open sc_cache]. repeat split; try lia.
+    + apply inactive_gmap. exact Hcnt.
+    + intros x Hx. apply in_remove in Hx. destruct Hx as [Hx Hn].
+      destruct (Hl x Hx) as [A|[A|A]]; [left; exact A|congruence|right; right; exact A].
+  - unfold SInvX. cbn [sc_users sc_gens sc_ctx sc_open sc_cache]. repeat split; try assumption; try lia.
+    destruct (sc_cache s); [destruct Hc; split; [lia|assumption]|lia].
 Qed.
 
-Lemma start_inv : forall s fr, SInv s -> SInv (set_gens s (sc_gens s ++ [GNew fr])).
+Lemma held_in : forall m r l, In (GActive m r) l -> held m l = true.
 Proof.
-  intros s fr [Hu Hc]. unfold SInv, set_gens. cbn [sc_users sc_gens sc_ctx sc_cache sc_open].
-  rewrite count_app. cbn [count_active active]. split; [lia|].
-  destruct (sc_cache s) as [m|]; [|exact Hc]. destruct Hc as (A & B & C & D).
-  split; [exact A|]. split; [exact B|]. split; [|exact D].
-  apply Forall_app. split; [exact C|]. constructor; [exact I|constructor].
+  unfold held. intros m r l H. apply existsb_exists. exists (GActive m r). split; [exact H|]. cbn. apply Nat.eqb_refl.
+Qed.
+
+Lemma drop_ref_inv : forall s k m, SInvX k (Some m) s -> SInvX k None (drop_ref s m).
+Proof.
+  intros s k m (Hu & Hg & Hc & Hl). unfold drop_ref.
+  destruct ((match sc_cache s with Some c => Nat.eqb c m | None => false end) || held m (sc_gens s)) eqn:E.
+  - unfold SInvX. repeat split; try assumption. intros x Hx. destruct (Hl x Hx) as [A|[A|A]].
+    + injection A as <-. apply orb_true_iff in E. destruct E as [E|E].
+      * destruct (sc_cache s) as [c|]; [|discriminate]. apply Nat.eqb_eq in E. subst c. right; left; reflexivity.
+      * right; right; exact E.
+    + right; left; exact A.
+    + right; right; exact A.
+  - apply orb_false_iff in E. destruct E as [Ec Eh].
+    unfold SInvX, set_open. cbn [sc_users sc_gens sc_ctx sc_open sc_cache]. repeat split.
+    + exact Hu.
+    + apply Forall_forall. intros g Hgin. rewrite Forall_forall in Hg. specialize (Hg g Hgin).
+      destruct g as [fr|m' r|]; cbn in *; auto. apply in_remove. split; [exact Hg|]. intros ->.
+      rewrite (held_in _ _ _ Hgin) in Eh. discriminate.
+    + destruct (sc_cache s) as [c|]; [|exact Hc]. destruct Hc as [Hp Hin]. split; [exact Hp|].
+      apply in_remove. split; [exact Hin|]. intros ->. rewrite Nat.eqb_refl in Ec. discriminate.
+    + intros x Hx. apply in_remove in Hx. destruct Hx as [Hx Hn]. destruct (Hl x Hx) as [A|[A|A]].
+      * congruence.
+      * right; left; exact A.
+      * right; right; exact A.
+Qed.
+
+Lemma done_inv : forall s k g m rest, SInvX k None s -> nth_error (sc_gens s) g = Some (GActive m rest) ->
+  SInvX (S k) (Some m) (set_gens s (replace_nth g GDone (sc_gens s))).
+Proof.
+  intros s k g m rest (Hu & Hg & Hc & Hl) Hn. unfold SInvX, set_gens. cbn [sc_users sc_gens sc_ctx sc_open sc_cache].
+  pose proof (count_replace _ g GDone _ Hn) as Hcr. cbn [active] in Hcr. repeat split.
+  - lia.
+  - apply Forall_replace; [exact Hg|exact I].
+  - exact Hc.
+  - intros x Hx. destruct (Hl x Hx) as [A|[A|A]]; [discriminate|right; left; exact A|].
+    destruct (Nat.eq_dec x m) as [->|Hne]; [left; reflexivity|]. right; right.
+    apply (held_replace_keep x _ g GDone _ Hn A). left. cbn. apply Nat.eqb_neq. congruence.
+Qed.
+
+Lemma newdone_inv : forall s k ex g fr, SInvX k ex s -> nth_error (sc_gens s) g = Some (GNew fr) ->
+  SInvX k ex (set_gens s (replace_nth g GDone (sc_gens s))).
+Proof.
+  intros s k ex g fr (Hu & Hg & Hc & Hl) Hn. unfold SInvX, set_gens. cbn [sc_users sc_gens sc_ctx sc_open sc_cache].
+  pose proof (count_replace _ g GDone _ Hn) as Hcr. cbn [active] in Hcr. repeat split.
+  - lia.
+  - apply Forall_replace; [exact Hg|exact I].
+  - exact Hc.
+  - intros x Hx. destruct (Hl x Hx) as [A|[A|A]]; [left; exact A|right; left; exact A|right; right].
+    apply (held_replace_keep x _ g GDone _ Hn A). left. reflexivity.
+Qed.
+
+Lemma activate_inv : forall s k ex g fr m frames, SInvX (S k) ex s ->
+  nth_error (sc_gens s) g = Some (GNew fr) -> In m (sc_open s) ->
+  SInvX k ex (set_gens s (replace_nth g (GActive m frames) (sc_gens s))).
+Proof.
+  intros s k ex g fr m frames (Hu & Hg & Hc & Hl) Hn Hin. unfold SInvX, set_gens. cbn [sc_users sc_gens sc_ctx sc_open sc_cache].
+  pose proof (count_replace _ g (GActive m frames) _ Hn) as Hcr. cbn [active] in Hcr. repeat split.
+  - lia.
+  - apply Forall_replace; [exact Hg|exact Hin].
+  - exact Hc.
+  - intros x Hx. destruct (Hl x Hx) as [A|[A|A]]; [left; exact A|right; left; exact A|right; right].
+    apply (held_replace_keep x _ g (GActive m frames) _ Hn A). left. reflexivity.
+Qed.
+
+Lemma chunk_inv : forall s k ex g m r r', SInvX k ex s -> nth_error (sc_gens s) g = Some (GActive m r) ->
+  SInvX k ex (set_gens s (replace_nth g (GActive m r') (sc_gens s))).
+Proof.
+  intros s k ex g m r r' (Hu & Hg & Hc & Hl) Hn. unfold SInvX, set_gens. cbn [sc_users sc_gens sc_ctx sc_open sc_cache].
+  pose proof (count_replace _ g (GActive m r') _ Hn) as Hcr. cbn [active] in Hcr. repeat split.
+  - lia.
+  - apply Forall_replace; [exact Hg|]. rewrite Forall_forall in Hg. exact (Hg _ (nth_error_In _ _ Hn)).
+  - exact Hc.
+  - intros x Hx. destruct (Hl x Hx) as [A|[A|A]]; [left; exact A|right; left; exact A|right; right].
+    destruct (Nat.eq_dec x m) as [->|Hne].
+    + apply (held_replace_self m _ g _ r' Hn).
+    + apply (held_replace_keep x _ g (GActive m r') _ Hn A). left. cbn. apply Nat.eqb_neq. congruence.
+Qed.
+
+Lemma start_inv : forall s k ex fr, SInvX k ex s -> SInvX k ex (set_gens s (sc_gens s ++ [GNew fr])).
+Proof.
+  intros s k ex fr (Hu & Hg & Hc & Hl). unfold SInvX, set_gens. cbn [sc_users sc_gens sc_ctx sc_open sc_cache].
+  rewrite count_app. cbn [count_active active]. repeat split.
+  - lia.
+  - apply Forall_app. split; [exact Hg|]. constructor; [exact I|constructor].
+  - exact Hc.
+  - intros x Hx. destruct (Hl x Hx) as [A|[A|A]]; [left; exact A|right; left; exact A|right; right].
+    rewrite held_app, A. reflexivity.
+Qed.
+
+Lemma data_inv : forall s k ex c, SInvX k ex s -> SInvX k ex (set_data s c).
+Proof. intros s k ex c H. exact H. Qed.
+
+Lemma ctx_push : forall s k ex m, SInvX (S k) ex s -> SInvX k ex (set_ctx s (m :: sc_ctx s)).
+Proof.
+  intros s k ex m (Hu & Hg & Hc & Hl). unfold SInvX, set_ctx. cbn [sc_users sc_gens sc_ctx sc_open sc_cache length].
+  repeat split; try assumption. lia.
+Qed.
+Lemma ctx_pop : forall s k ex m rest, SInvX k ex s -> sc_ctx s = m :: rest -> SInvX (S k) ex (set_ctx s rest).
+Proof.
+  intros s k ex m rest (Hu & Hg & Hc & Hl) Hx. unfold SInvX, set_ctx. cbn [sc_users sc_gens sc_ctx sc_open sc_cache].
+  rewrite Hx in Hu. cbn [length] in Hu. repeat split; try assumption. lia.
+Qed.
+
+(* a generator finishes: leave the context, drop the reference *)
+Lemma finish_inv : forall s g m rest, SInv s -> nth_error (sc_gens s) g = Some (GActive m rest) ->
+  SInv (drop_ref (release (set_gens s (replace_nth g GDone (sc_gens s)))) m).
+Proof.
+  intros s g m rest HI Hn. apply drop_ref_inv, release_inv. exact (done_inv s 0 g m rest HI Hn).
+Qed.
+
+Lemma advance_safe : forall s g m rest, SInv s -> nth_error (sc_gens s) g = Some (GActive m rest) ->
+  SInv (snd (advance_active s g m rest)) /\ fst (advance_active s g m rest) <> OCrash.
+Proof.
+  intros s g m rest HI Hn. unfold advance_active. destruct rest as [|[a b] rest'].
+  - cbn [fst snd]. split; [exact (finish_inv s g m [] HI Hn)|discriminate].
+  - destruct HI as (Hu & Hg & Hc & Hl). pose proof Hg as Hg'. rewrite Forall_forall in Hg'.
+    pose proof (Hg' _ (nth_error_In _ _ Hn)) as Hin. cbn in Hin. rewrite (mem_in _ _ Hin). cbn [fst snd].
+    split; [|discriminate]. exact (chunk_inv s 0 None g m _ rest' (conj Hu (conj Hg (conj Hc Hl))) Hn).
+Qed.
+
+Lemma nth_replace_same : forall (l : list gstate) g x old, nth_error l g = Some old ->
+  nth_error (replace_nth g x l) g = Some x.
+Proof.
+  induction l as [|y l IH]; intros g x old H; destruct g; cbn in *; try discriminate; [reflexivity|].
+  exact (IH _ _ _ H).
 Qed.
 
 Theorem sched_step_safe : forall s a, SInv s ->
   SInv (snd (sched_step s a)) /\ fst (sched_step s a) <> OCrash.
 Proof.
-  intros s a HI. pose proof HI as [Hu Hc].
-  destruct a as [c so sto eno fl|g|g| | |i|i v|]; cbn [sched_step].
+  intros s a HI.
+  destruct a as [c so sto eno fl|g|g| | |i|i v| |n]; cbn [sched_step].
   - (* start: a new generator object, nothing runs *)
-    destruct (iterindices (sc_len s) c so sto eno fl) as [frames|e]; cbn [fst snd]; (split; [|discriminate]);
-      apply start_inv; exact HI.
+    cbn [fst snd]. split; [|discriminate]. apply start_inv; exact HI.
   - (* advance *)
     destruct (nth_error (sc_gens s) g) as [gs|] eqn:En; [|split; [exact HI|discriminate]].
-    assert (Adv: forall s0 m rest,
-              sc_cache s0 = Some m -> sc_open s0 = [m] ->
-              nth_error (sc_gens s0) g = Some (GActive m rest) ->
-              sc_users s0 = (count_active (sc_gens s0) + length (sc_ctx s0))%nat ->
-              Forall (holds m) (sc_gens s0) -> Forall (fun x => x = m) (sc_ctx s0) ->
-              SInv (snd (advance_active s0 g m rest)) /\ fst (advance_active s0 g m rest) <> OCrash).
-    { intros s0 m rest C0 O0 N0 U0 G0 X0. unfold advance_active. destruct rest as [|[a b] rest'].
-      - cbn [fst snd]. split; [|discriminate]. apply (release_inv _ m); cbn [set_gens sc_cache sc_open sc_users sc_gens sc_ctx]; try assumption.
-        + pose proof (count_replace _ g GDone _ N0) as Hc0. cbn [active] in Hc0. lia.
-        + apply Forall_replace; [assumption|exact I].
-      - rewrite O0, mem_nat_refl. cbn [fst snd]. split; [|discriminate].
-        unfold SInv, set_gens. cbn [sc_users sc_gens sc_ctx sc_cache sc_open]. rewrite C0.
-        pose proof (count_replace _ g (GActive m rest') _ N0) as Hc0. cbn [active] in Hc0.
-        split; [lia|]. repeat split; try assumption.
-        + assert (Hp: (0 < count_active (sc_gens s0))%nat).
-          { clear - N0. revert g N0. induction (sc_gens s0) as [|y l IH]; intros g N0; destruct g; cbn in *; try discriminate.
-            - inversion N0; subst. cbn. lia.
-            - specialize (IH _ N0). lia. }
-          lia.
-        + apply Forall_replace; [assumption|reflexivity]. }
-    destruct gs as [frames|m rest|].
-    + (* first next(): enter the context *)
-      pose proof (acquire_spec s HI) as AS. destruct (acquire s) as [m s1].
-      destruct AS as (C1 & O1 & U1 & G1 & X1 & D1 & L1 & Hg & Hx & M1).
-      assert (N1: nth_error (sc_gens s1) g = Some (GNew frames)) by (rewrite G1; exact En).
-      assert (Raise: SInv (release (set_gens s1 (replace_nth g GDone (sc_gens s1))))).
-      { apply (release_inv _ m); cbn [set_gens sc_cache sc_open sc_users sc_gens sc_ctx]; try assumption.
-        - pose proof (count_replace _ g GDone _ N1) as Hc0. cbn [active] in Hc0. rewrite U1, Hu, G1, X1 in *. lia.
-        - rewrite G1. apply Forall_replace; [assumption|exact I].
-        - rewrite X1. exact Hx. }
-      assert (Go: SInv (snd (advance_active (set_gens s1 (replace_nth g (GActive m frames) (sc_gens s1))) g m frames)) /\
-                  fst (advance_active (set_gens s1 (replace_nth g (GActive m frames) (sc_gens s1))) g m frames) <> OCrash).
-      { apply Adv; cbn [set_gens sc_cache sc_open sc_users sc_gens sc_ctx]; try assumption.
-        - clear - N1. revert g N1. induction (sc_gens s1) as [|y l IH]; intros g N1; destruct g; cbn in *; try discriminate; [reflexivity|].
-          apply IH. exact N1.
-        - pose proof (count_replace _ g (GActive m frames) _ N1) as Hc0. cbn [active] in Hc0. rewrite U1, Hu, G1, X1 in *. lia.
-        - rewrite G1. apply Forall_replace; [assumption|reflexivity].
-        - rewrite X1. exact Hx. }
-      destruct frames as [|[a b] fr]; [exact Go|].
-      destruct ((a =? -1) && (b =? -1) && match fr with [] => true | _ => false end) eqn:Emark.
-      * (* the marker of invalid parameters *)
-        apply andb_true_iff in Emark. destruct Emark as [Eab Efr]. apply andb_true_iff in Eab. destruct Eab as [Ea Eb].
-        apply Z.eqb_eq in Ea, Eb. subst a b. destruct fr; [|discriminate]. cbn [fst snd]. split; [exact Raise|discriminate].
-      * destruct a as [|pa|pa]; try exact Go. destruct pa; try exact Go. destruct b as [|pb|pb]; try exact Go.
-        destruct pb; try exact Go. destruct fr; [cbn in Emark; discriminate|exact Go].
-    + destruct (sc_cache s) as [m0|] eqn:Ecache.
-      * destruct Hc as (Hpos & Hop & Hg & Hx).
-        assert (m = m0). { rewrite Forall_forall in Hg. apply nth_error_In in En. exact (Hg _ En). }
-        subst m0. apply Adv; assumption.
-      * exfalso. destruct Hc as (H0 & _).
-        assert ((0 < count_active (sc_gens s))%nat).
-        { clear - En. revert g En. induction (sc_gens s) as [|y l IH]; intros g En; destruct g; cbn in *; try discriminate.
-          - inversion En; subst. cbn. lia.
-          - specialize (IH _ En). lia. }
-        lia.
+    destruct gs as [[[[[c so] sto] eno] fl]|m rest|].
+    + (* first next(): enter the context, compute the frames for the CURRENT length *)
+      destruct (acquire_inv s 0 None HI) as (I1 & C1 & O1 & G1 & X1 & D1 & L1).
+      destruct (acquire s) as [m s1]. cbn [fst snd] in *.
+      assert (N1: nth_error (sc_gens s1) g = Some (GNew (c, so, sto, eno, fl))) by (rewrite G1; exact En).
+      destruct (iterindices (sc_len s1) c so sto eno fl) as [frames|e].
+      * apply advance_safe.
+        -- exact (activate_inv s1 0 None g _ m frames I1 N1 O1).
+        -- cbn [set_gens sc_gens]. exact (nth_replace_same _ _ _ _ N1).
+      * cbn [fst snd]. split; [|discriminate]. apply release_inv. exact (newdone_inv s1 1 None g _ I1 N1).
+    + exact (advance_safe s g m rest HI En).
     + cbn [fst snd]. split; [exact HI|discriminate].
   - (* close *)
-    destruct (nth_error (sc_gens s) g) as [[frames|m rest|]|] eqn:En; cbn [fst snd]; (split; [|discriminate]); try exact HI.
-    + unfold SInv, set_gens. cbn [sc_users sc_gens sc_ctx sc_cache sc_open].
-      pose proof (count_replace _ g GDone _ En) as Hc0. cbn [active] in Hc0. split; [lia|].
-      destruct (sc_cache s) as [m0|]; [|exact Hc]. destruct Hc as (A & B & C & D).
-      repeat split; try assumption. apply Forall_replace; [assumption|exact I].
-    + destruct (sc_cache s) as [m0|] eqn:Ecache.
-      * destruct Hc as (Hpos & Hop & Hg & Hx).
-        assert (m = m0). { rewrite Forall_forall in Hg. apply nth_error_In in En. exact (Hg _ En). }
-        subst m0. apply (release_inv _ m); cbn [set_gens sc_cache sc_open sc_users sc_gens sc_ctx]; try assumption.
-        -- pose proof (count_replace _ g GDone _ En) as Hc0. cbn [active] in Hc0. lia.
-        -- apply Forall_replace; [assumption|exact I].
-      * exfalso. destruct Hc as (H0 & _).
-        assert ((0 < count_active (sc_gens s))%nat).
-        { clear - En. revert g En. induction (sc_gens s) as [|y l IH]; intros g En; destruct g; cbn in *; try discriminate.
-          - inversion En; subst. cbn. lia.
-          - specialize (IH _ En). lia. }
-        lia.
+    destruct (nth_error (sc_gens s) g) as [[pr|m rest|]|] eqn:En; cbn [fst snd]; (split; [|discriminate]); try exact HI.
+    + exact (newdone_inv s 0 None g pr HI En).
+    + exact (finish_inv s g m rest HI En).
   - (* enter a context *)
-    pose proof (acquire_spec s HI) as AS. destruct (acquire s) as [m s1].
-    destruct AS as (C1 & O1 & U1 & G1 & X1 & D1 & L1 & Hg & Hx & M1). cbn [fst snd]. split; [|discriminate].
-    unfold SInv, set_ctx. cbn [sc_users sc_gens sc_ctx sc_cache sc_open length]. rewrite C1, U1, G1, X1.
-    split; [lia|]. repeat split; try assumption; try lia. constructor; [reflexivity|exact Hx].
+    destruct (acquire_inv s 0 None HI) as (I1 & C1 & O1 & G1 & X1 & D1 & L1).
+    destruct (acquire s) as [m s1]. cbn [fst snd] in *. split; [|discriminate]. exact (ctx_push s1 0 None m I1).
   - (* exit *)
     destruct (sc_ctx s) as [|m rest] eqn:Ectx; cbn [fst snd]; (split; [|discriminate]); [exact HI|].
-    destruct (sc_cache s) as [m0|] eqn:Ecache.
-    + destruct Hc as (Hpos & Hop & Hg & Hx). inversion Hx as [|? ? Hm Hrest]; subst.
-      apply (release_inv _ m0); cbn [set_ctx sc_cache sc_open sc_users sc_gens sc_ctx]; try assumption.
-      cbn [length] in Hu. lia.
-    + exfalso. destruct Hc as (H0 & _). cbn [length] in Hu. lia.
+    apply release_inv. exact (ctx_pop s 0 None m rest HI Ectx).
   - (* read an element *)
-    pose proof (acquire_spec s HI) as AS. destruct (acquire s) as [m s1].
-    destruct AS as (C1 & O1 & U1 & G1 & X1 & D1 & L1 & Hg & Hx & M1). rewrite M1. cbn [fst snd]. split; [|discriminate].
-    apply (release_inv _ m); try assumption; [rewrite U1, Hu, G1, X1; reflexivity|rewrite G1; exact Hg|rewrite X1; exact Hx].
+    destruct (acquire_inv s 0 None HI) as (I1 & C1 & O1 & G1 & X1 & D1 & L1).
+    destruct (acquire s) as [m s1]. cbn [fst snd] in *. rewrite (mem_in _ _ O1). cbn [fst snd]. split; [|discriminate].
+    apply release_inv. exact I1.
   - (* write an element *)
-    pose proof (acquire_spec s HI) as AS. destruct (acquire s) as [m s1].
-    destruct AS as (C1 & O1 & U1 & G1 & X1 & D1 & L1 & Hg & Hx & M1). rewrite M1. cbn [fst snd]. split; [|discriminate].
-    apply (release_inv _ m); cbn [set_data sc_cache sc_open sc_users sc_gens sc_ctx]; try assumption;
-      [rewrite U1, Hu, G1, X1; reflexivity|rewrite G1; exact Hg|rewrite X1; exact Hx].
+    destruct (acquire_inv s 0 None HI) as (I1 & C1 & O1 & G1 & X1 & D1 & L1).
+    destruct (acquire s) as [m s1]. cbn [fst snd] in *. rewrite (mem_in _ _ O1). cbn [fst snd]. split; [|discriminate].
+    apply release_inv. apply data_inv. exact I1.
   - (* an access for which NumPy raises *)
-    pose proof (acquire_spec s HI) as AS. destruct (acquire s) as [m s1].
-    destruct AS as (C1 & O1 & U1 & G1 & X1 & D1 & L1 & Hg & Hx & M1). cbn [fst snd]. split; [|discriminate].
-    apply (release_inv _ m); try assumption; [rewrite U1, Hu, G1, X1; reflexivity|rewrite G1; exact Hg|rewrite X1; exact Hx].
+    destruct (acquire_inv s 0 None HI) as (I1 & C1 & O1 & G1 & X1 & D1 & L1).
+    destruct (acquire s) as [m s1]. cbn [fst snd] in *. split; [|discriminate]. apply release_inv. exact I1.
+  - (* the length changes: the shared map is renewed *)
+    destruct HI as (Hu & Hg & Hc & Hl). destruct (sc_cache s) as [m|] eqn:Ec; cbn [fst snd]; (split; [|discriminate]).
+    + destruct Hc as [Hp Hin]. unfold SInv, SInvX. cbn [sc_users sc_gens sc_ctx sc_open sc_cache]. repeat split.
+      * exact Hu.
+      * apply Forall_forall. intros g Hgin. rewrite Forall_forall in Hg. specialize (Hg g Hgin).
+        destruct g as [fr|m' r|]; cbn in *; auto. right.
+        destruct (held m (sc_gens s)) eqn:Eh; [exact Hg|]. apply in_remove. split; [exact Hg|]. intros ->.
+        rewrite (held_in _ _ _ Hgin) in Eh. discriminate.
+      * exact Hp.
+      * left. reflexivity.
+      * intros x [<-|Hx]; [right; left; reflexivity|]. right; right.
+        destruct (held m (sc_gens s)) eqn:Eh.
+        -- destruct (Hl x Hx) as [A|[A|A]]; [discriminate|injection A as <-; exact Eh|exact A].
+        -- apply in_remove in Hx. destruct Hx as [Hx Hn]. destruct (Hl x Hx) as [A|[A|A]]; [discriminate|congruence|exact A].
+    + unfold SInv, SInvX. cbn [sc_users sc_gens sc_ctx sc_open sc_cache]. repeat split; assumption.
 Qed.
 
 Theorem sched_run_safe : forall acts s, SInv s ->
@@ -209,13 +344,27 @@ Proof.
 Qed.
 
 Lemma sinv_init : forall n k, SInv (sched_init n k).
-Proof. intros. unfold SInv, sched_init. cbn. split; [reflexivity|split; reflexivity]. Qed.
+Proof.
+  intros. unfold SInv, SInvX, sched_init. cbn.
+  split; [reflexivity|split; [constructor|split; [reflexivity|intros m H; destruct H]]].
+Qed.
 
 (* when all generators and contexts are finished no map / file handle remains open *)
 Theorem no_leak : forall s, SInv s -> count_active (sc_gens s) = 0%nat -> sc_ctx s = [] ->
   sc_cache s = None /\ sc_open s = [] /\ sc_users s = 0%nat.
 Proof.
-  intros s [Hu Hc] Hg Hx. rewrite Hg, Hx in Hu. cbn in Hu. destruct (sc_cache s) as [m|].
-  - destruct Hc as (Hpos & _). lia.
-  - destruct Hc as (_ & Hop). repeat split; assumption.
+  intros s (Hu & Hg & Hc & Hl) Hcnt Hx. rewrite Hcnt, Hx in Hu. cbn in Hu.
+  destruct (sc_cache s) as [m|] eqn:Ec; [destruct Hc; lia|]. repeat split; try assumption.
+  destruct (sc_open s) as [|x o]; [reflexivity|]. exfalso.
+  destruct (Hl x (or_introl eq_refl)) as [A|[A|A]]; try discriminate.
+  pose proof (held_count _ _ A). lia.
+Qed.
+
+(* the element / chunk accesses used by the property files *)
+Lemma acquire_spec : forall s, SInv s ->
+  sc_gens (snd (acquire s)) = sc_gens s /\ sc_ctx (snd (acquire s)) = sc_ctx s /\
+  sc_data (snd (acquire s)) = sc_data s /\ mem_nat (fst (acquire s)) (sc_open (snd (acquire s))) = true.
+Proof.
+  intros s HI. destruct (acquire_inv s 0 None HI) as (I1 & C1 & O1 & G1 & X1 & D1 & L1).
+  repeat split; try assumption. apply mem_in. exact O1.
 Qed.
